@@ -42,8 +42,9 @@ def coords(low, o, name):
     return [val_term(low, o['%s.%s' % (name, c)]['f']) for c in 'xyz']
 
 
-def run(tier, seed):
-    ck = Check('C02', tier, seed, level='proof')
+def run(tier, seed, ck=None):
+    own = ck is None
+    ck = ck or Check('C02', tier, seed, level='proof')
     jobs = []
     for op in (0, 1):
         for al in (0, 1, 2):
@@ -51,13 +52,13 @@ def run(tier, seed):
     for op in (2, 3):
         jobs.append({'id': 'op1_%d' % op, 'harness': 'vh_el_op1', 'args': [op], 'summaries': FIELD_SUMM})
     runs = ck.absorb(core.symx_parallel(HARNESS, jobs))
-    ck.extra['_runs'] = runs
+    ck.extra.setdefault('_runs', []).extend(runs)
     R_ = {r.id: r for r in runs}
-    ck.trusted = ['go/ssa + symx translation', 'SMT solvers',
+    ck.trusted += ['go/ssa + symx translation', 'SMT solvers',
                   'Renes-Costello-Batina 2015, Thm 1/Alg. 7, 9: for a = 0 the closed forms below are the group law on every pair of points of a curve without points of order 2 (secp256k1 has prime order), including P = Q, P = -Q and the identity (0:Y:0)',
                   'contracts of field.Element methods (C12); an identity over Z[constants] holds in F_p']
-    ck.assumptions = ['coordinates are arbitrary field values (the identities do not even need the curve equation)']
-    ck.bounds = {'operands': 'all coordinate 6-tuples as ring elements', 'aliasing': 'distinct / argument is receiver / nil'}
+    ck.assumptions += ['coordinates are arbitrary field values (the identities do not even need the curve equation)']
+    ck.bounds.update({'operands': 'all coordinate 6-tuples as ring elements', 'aliasing': 'distinct / argument is receiver / nil'})
     kernels.prove(ck, 'field', ['Mul', 'Square', 'Add', 'Sub', 'Opp', 'Nonzero', 'Selectznz'], tier)
 
     def replay_battery(key, why):
@@ -134,7 +135,7 @@ def run(tier, seed):
         reference_validation(ck)
     if any(not o['ok'] for o in ck.obls) and not ck.violations:
         replay_battery('group:structure', 'a structural obligation failed: ' + [o['id'] for o in ck.obls if not o['ok']][0])
-    return ck.finish()
+    return ck.finish() if own else None
 
 
 def reference_validation(ck):
